@@ -100,7 +100,9 @@ def rand_atom(rng, base, spell=None):
     if base == "address":
         return "0x" + "".join(rng.choice("0123456789abcdefABCDEF") for _ in range(40))
     if base == "string":
-        return rng.choice(["", "hello", "Hello, Bob!", "éé \U0001F600 \"q\" \\ \n", "a" * rng.randint(0, 70)])
+        return rng.choice(["", "hello", "Hello, Bob!", "éé \U0001F600 \"q\" \\ \n", "a" * rng.randint(0, 70),
+                           # not in NFC / NFKC: the bytes as given are what is hashed
+                           "Cafe\u0301", "Zoe\u0308", "\u212b \u2126 \u00c5", "q\u0307\u0323", "\u1100\u1161", "\ufb01 \uff21 \u00b2", "\uf900", " lead trail ", "tab\there"])
     if base == "bytes":
         return "0x" + bytes(rng.getrandbits(8) for _ in range(rng.choice([0, 1, 31, 32, 33, 64]))).hex()
     if base.startswith("bytes"):
